@@ -148,15 +148,35 @@ func ZZH_C13_account_fields() {
 		m.nonce = 1
 		l.SetBalance(addr, new(big.Int).SetUint64(m.bal))
 		l.SetNonce(addr, 1)
+		if zz.Choice("existingCode", 2) == 1 {
+			m.code = []byte{zz.U8("code0")}
+			l.SetCode(addr, m.code)
+		}
 		height++
 		zzCommit(l, height)
+	}
+	// a flushed block whose Commit is still outstanding (the executor persists asynchronously)
+	var pending *pendingCommit
+	commitPending := func() {
+		if pending != nil {
+			if err := l.Commit(pending.h, pending.accounts, pending.root); err != nil {
+				panic(err)
+			}
+			pending = nil
+		}
 	}
 	k := 3
 	if zz.Thorough() {
 		k = 4
 	}
 	for step := 0; step < k; step++ {
-		switch zz.Choice("op", 10) {
+		switch zz.Choice("op", 11) {
+		case 10: // end of block: flush now, commit later (the next block reads cache + stale database)
+			commitPending()
+			height++
+			acc, root := l.FlushDirtyData()
+			pending = &pendingCommit{h: height, accounts: acc, root: root}
+			snaps, ids = nil, nil
 		case 9: // a write that is reverted at once (failing transaction): snapshot, write, revert
 			id := l.Snapshot()
 			switch zz.Choice("transient", 3) {
@@ -191,10 +211,12 @@ func ZZH_C13_account_fields() {
 			l.SetCode(addr, c)
 			m.code = c
 		case 3:
+			commitPending()
 			height++
 			zzCommit(l, height)
 			snaps, ids = nil, nil
 		case 4:
+			commitPending()
 			height++
 			zzCommit(l, height)
 			cache, _ = NewAccountCache()
